@@ -194,12 +194,29 @@ CHECKS = {
             "RDATA value spellings come from a fixed table; \\DDD escapes, IDNA labels and $INCLUDE are 'unspec' (totality only); "
             "whole files are sampled with seeded -simulate; layouts the reading leaves unspecified are not judged.",
             "DESIGN.md section 4 C20", "zonefile"),
+    "C07": ("model_checking",
+            "TLA+ specification of DNSSEC worlds, adversarial faults and a declarative UnbrokenChain/denial oracle plus the "
+            "validator walk, model-checked by TLC; TLC-generated worlds x queries x fault sets replayed against the real "
+            "DnssecDnsHandle over real signed zones and against the real forwarding server path; random deeper worlds judged by a "
+            "TLA+ monitor",
+            "Exhaustive for <= 2 faults, hierarchy depth <= 3 (depth 4 for single faults): worlds of signed / unsigned / "
+            "unsupported-algorithm zones with secure, provably insecure, DS-unsupported-only and broken delegations, positive / "
+            "NODATA / NXDOMAIN queries, faults drop / alter signed bit / re-sign with an attacker key / inject on records, RRSIGs "
+            "and denial records of the answer, DNSKEY and DS responses; each world is built from real InMemoryZoneHandlers signed "
+            "by hickory's own signer (Ed25519), queries routed by name, faults applied to the responses, and the verdict class "
+            "(Secure / Insecure / anything else) of DnssecDnsHandle compared with the allowed set; second stage through Catalog "
+            "-> forwarder -> resolver for the AD / SERVFAIL mapping under CD x DO.",
+            "The property is an 'only if': Bogus, Indeterminate and errors are always accepted; NSEC3/opt-out worlds, wildcard "
+            "and CNAME answers, key-tag collisions, revoked keys and RSA worlds are not generated; crypto (ring) trusted.",
+            "DESIGN.md section 4 C07", "chain"),
 }
 
 NOT_YET = {
 }
 
 ENGINES = [
+    {"name": "chain", "path": "spec/Chain.tla", "serves_properties": ["C07"],
+     "kind_free_text": "TLA+ spec (ChainOps, Chain, MC_/Gen_/Trace_Chain) + harness/src/bin/drive_chain.rs"},
     {"name": "zonefile", "path": "spec/ZoneFile.tla", "serves_properties": ["C20"],
      "kind_free_text": "TLA+ spec (ZoneLex, ZoneFile, ZonePrinter, MC_/Gen_ZoneLex, MC_/Gen_/Trace_ZoneFile) + harness/src/bin/drive_zone.rs"},
     {"name": "mux", "path": "spec/Mux.tla", "serves_properties": ["C16"],
